@@ -1,4 +1,5 @@
-import PbVerif.Lemmas.MsgAlgMerge
+import PbVerif.Lemmas.MsgAlgClone
+import PbVerif.Lemmas.MsgAlgExamples
 /-
 C07 — merge laws (model: `Pb.mergeMsg` = proto/merge.go `mergeMessage`) and their relation to
 decoding.
@@ -96,12 +97,42 @@ theorem merge_map (S : Schema) (d : MsgD) (f : Field) (dst : Fields) (vs : Vals)
        else dst.set f.num (.many (mergeMapVals S f.sub (dst.listAt f.num) vs))) := by
   rw [mergeFVal]; simp only [hc, if_true]; rfl
 
-theorem mergeMapVals_cons_msg (S : Schema) (ei : Nat) (dst : Vals) (e : Msg) (tl : Vals) (k : Val)
-    (hk : entryKey e = some k) :
-    mergeMapVals S ei dst (.cons (.msg e) tl) =
-      mergeMapVals S ei (mapPut dst k (clone S ei e)) tl := by
-  rw [mergeMapVals, mergeMapVal]
-  simp only [hk]
-  rfl
+/-- `mapPut` is a finite-map update: the entry stored under `k` afterwards is exactly `e` -/
+theorem merge_map_put (vs : Vals) (k : Val) (e : Msg) (hk : entryHasKey e k = true) (k' : Val) :
+    lookupEntry (mapPut vs k e) k' = if valBEq k' k then some e else lookupEntry vs k' :=
+  lookupEntry_mapPut vs k e hk k'
+
+/-- the map after merging the source entries `vs`: under every source key the deep copy of the
+source entry (whatever the destination held), under every other key the destination entry -/
+theorem merge_map_lookup (S : Schema) (ei : Nat) (vs dst : Vals) (h : pwfEntries S ei vs = true) (k : Val) :
+    lookupEntry (mergeMapVals S ei dst vs) k =
+      match lookupEntry vs k with
+      | some e => some (clone S ei e)
+      | none => lookupEntry dst k :=
+  lookupEntry_mergeMapVals S ei vs dst (entriesOK_of_pwf h) k
+
+/-! ### the whole message -/
+
+/-- **whole-message merge law** — for every destination `a` and every source `b` with distinct field
+numbers and at most one populated member per oneof (`mergeOK`): field `j` of `mergeMsg a b` is
+the source value merged into the destination value by the single-field laws above when `b`
+populates `j`; otherwise it is `a`'s value, unless `b` populates another member of `j`'s oneof. -/
+theorem mergeMsg_get? (S : Schema) (mi : Nat) (a b : Msg) (hb : mergeOK (S.msg mi) b.fields = true) (j : Nat) :
+    (mergeMsg S mi a b).fields.get? j =
+      match b.fields.get? j, (S.msg mi).find j with
+      | some fv, some f => (mergeFVal S (S.msg mi) f a.fields fv).get? j
+      | _, _ => if clearedBy (S.msg mi) b.fields j then none else a.fields.get? j := by
+  cases a; cases b
+  rw [mergeMsg_mk]
+  exact mergeFields_get? S _ _ _ hb j
+
+example : mergeOK (Ex.S0.msg 0) Ex.m0.fields = true := by decide
+
+/-- merge keeps the destination's fields in ascending order (the order `Fields.set` maintains) -/
+theorem mergeMsg_sorted (S : Schema) (mi : Nat) (a b : Msg) (ha : a.fields.Sorted) :
+    (mergeMsg S mi a b).fields.Sorted := by
+  cases a; cases b
+  rw [mergeMsg_mk]
+  exact sorted_mergeFields S _ _ _ ha
 
 end C07
